@@ -10,6 +10,7 @@ TInit == tid \in 1..N /\ l = 1
 ToSet(s) == {s[i] : i \in 1..Len(s)}
 \* an object inside the documented domain is written, the file is read back, and every stored attribute
 \* comes back in the relation the table prescribes (never permuted, sign-flipped, rescaled, truncated ...)
+QCSchemaDocs == {"json_qcschema", "json_qcschema_input", "json_qcschema_output"}
 RoundTripOK(e) ==
   /\ e.dump = "ok" /\ e.load = "ok"
   /\ \A k \in Keys(e.fmt) : e.rel[k] = Expect(e.fmt, k, ToSet(e.present))
@@ -17,8 +18,8 @@ RoundTripOK(e) ==
 \* after one cycle nothing changes any more (the QCSchema provenance trail grows by design)
 CyclesOK(e) ==
   /\ e.ok
-  /\ e.obj2_eq_obj1 \/ (e.fmt = "json_qcschema" /\ ToSet(e.drift) \subseteq {"extra"})
-  /\ e.bytes3_eq_bytes2 \/ e.fmt = "json_qcschema"
+  /\ e.obj2_eq_obj1 \/ (e.fmt \in QCSchemaDocs /\ ToSet(e.drift) \subseteq {"extra"})
+  /\ e.bytes3_eq_bytes2 \/ e.fmt \in QCSchemaDocs
 Step ==
   /\ l <= Len(Traces[tid])
   /\ LET e == Traces[tid][l] IN
